@@ -163,6 +163,19 @@ def run():
     if errs:
         raise tlc.MachineryError('harness error in crash enumeration: ' + errs[0])
     verd = validate(rep, traces)
+    # the binding binds: a recorded trace whose directory lacks a listed data file / whose operation log lost an entry is rejected
+    import copy
+    probe = next((tr for tr in traces if tr['post']['desc'] == 'parseable' and tr['post']['data'] and len(tr['ev']) > 3), None)
+    if probe is not None:
+        c1 = copy.deepcopy(probe)
+        c1['post']['data'][0] = 'absent'
+        c1['post']['listed_ok'] = False
+        c2 = copy.deepcopy(probe)
+        del c2['ev'][next(i for i, e in enumerate(c2['ev']) if e[0] == 'copy_close')]      # (single tmp_write entries are interchangeable in the model)
+        v1, v2 = validate(rep, [c1, c2])
+        if v1['c19'] or (v2['fs_eq'] and v2['matched'] == v2['total']):
+            raise tlc.MachineryError('DumpTrace accepted a corrupted trace (c19=%s, matched=%s/%s): the trace spec does not bind' % (v1['c19'], v2['matched'], v2['total']))
+        rep.notes['trace_binding_selftest'] = 'a parseable descriptor with a listed file missing fails C19; a log with a copy_close removed is not a behaviour of Dump.tla'
     outcomes = {}
     for it, tr, v in zip(items, traces, verd):
         rep.count(1, traces=1)
